@@ -336,10 +336,12 @@ func (run *semRunner) finish() semExec {
 			}
 		}()
 		t := time.NewTimer(2 * time.Second)
+	drain:
 		for range run.pending {
 			select {
 			case <-run.results:
 			case <-t.C:
+				break drain // (a fired timer never fires again: do not wait for the others)
 			}
 		}
 		t.Stop()
@@ -852,7 +854,7 @@ func runC12(c *Ctx) {
 	}
 	// execute in chunks: real code first, then one batch to the driver
 	const chunk = 500
-	semBudget, semT0 := 25*time.Second, time.Now()
+	semBudget, semT0 := 15*time.Second, time.Now()
 	if c.Thorough {
 		semBudget = 180 * time.Second
 	}
@@ -924,6 +926,9 @@ func runC12(c *Ctx) {
 	}
 	if c12Part("local") {
 		runC12Local(c)
+	}
+	if c12Part("float") {
+		runC12Float(c)
 	}
 
 }
